@@ -494,6 +494,11 @@ def run_two_chr_gene():
             f.write("\n".join(lines) + "\n")
         args = [a for a in P.std_args(p, threads=2) if a != "--complete_genedb"]
         rc, log = P.run_isoquant(os.path.join(d, "out"), args, home=os.path.join(d, "home"))
+        if rc != 0 and "is used on several sequences" in log and "SHARED" in log:
+            # since fix 5e64455 the input check rejects the annotation loudly and names the gene id (DESIGN §6, C03 rule (d)):
+            # nothing is printed on a wrong chromosome; the scenario is kept so that a silent acceptance shows up again
+            res["rejected_loudly"] = True
+            return res
         if rc != 0:
             res["error"] = "run rc=%s: %s" % (rc, log[-800:])
             return res
